@@ -236,3 +236,250 @@ Proof.
   - rewrite app_assoc. apply strip_suffix_app.
   - rewrite (rtrim_app d w Hw Hd). exact Hn.
 Qed.
+
+(* ------------------------------------------------------------------ the part after NAME *)
+Definition tail_fn (s3 : bytes) : option bytes :=
+  match strip_suffix close_s (skip_ws (drop_pipe (skip_ws s3))) with
+  | None => None
+  | Some body => let d := rtrim_ws body in if existsb is_nl d then None else Some d
+  end.
+
+Lemma match_env_l_unfold : forall l,
+  match_env_l l =
+  match strip_prefix open_s l with
+  | None => None
+  | Some s1 =>
+      match strip_prefix env_s (skip_ws s1) with
+      | None => None
+      | Some s2 =>
+          match fst (take_word (skip_ws s2)) with
+          | [] => None
+          | _ => option_map (fun d => (fst (take_word (skip_ws s2)), d))
+                            (tail_fn (snd (take_word (skip_ws s2))))
+          end
+      end
+  end.
+Proof.
+  intros l. unfold match_env_l, tail_fn.
+  destruct (strip_prefix open_s l) as [s1|]; [|reflexivity].
+  destruct (strip_prefix env_s (skip_ws s1)) as [s2|]; [|reflexivity].
+  destruct (take_word (skip_ws s2)) as [n s3]. cbn [fst snd].
+  destruct n as [|c n]; [reflexivity|].
+  destruct (strip_suffix close_s _) as [body|]; [|reflexivity].
+  cbn zeta. destruct (existsb is_nl (rtrim_ws body)); reflexivity.
+Qed.
+
+Definition tail_shaped (t : bytes) : Prop :=
+  exists a p b d e,
+    t = a ++ pipe_s p ++ b ++ d ++ e ++ close_s /\
+    Forall sp a /\ Forall sp b /\ Forall sp e /\ (d = [] \/ (no_nl d /\ ends_nonspace d)).
+
+Lemma tail_good : forall t, tail_shaped t -> Good (skip_ws (drop_pipe (skip_ws t))).
+Proof.
+  intros t [a [p [b [d [e [-> [Ha [Hb [He Hd]]]]]]]]].
+  assert (G : Good (d ++ e ++ close_s)).
+  { apply Good_intro; [exact He| |].
+    - destruct Hd as [->|[Hn _]]; [exact no_nl_nil| exact Hn].
+    - destruct Hd as [->|[_ Hd]]; [left; reflexivity| right; exact Hd]. }
+  rewrite skip_ws_app; [|exact Ha]. destruct p; cbn [pipe_s app].
+  - cbn [skip_ws]. destruct pipe_facts as [Hps _]. rewrite Hps. cbn [drop_pipe].
+    rewrite Ascii.eqb_refl. rewrite skip_ws_app; [|exact Hb]. apply Good_skip. exact G.
+  - rewrite skip_ws_app; [|exact Hb]. apply Good_skip. apply Good_drop_pipe. apply Good_skip. exact G.
+Qed.
+
+Lemma tail_accept : forall t, tail_shaped t -> tail_fn t <> None.
+Proof.
+  intros t H. apply tail_good in H. apply Good_finish in H. destruct H as [body [H1 H2]].
+  unfold tail_fn. rewrite H1. cbn zeta. rewrite H2. discriminate.
+Qed.
+
+Lemma close_not_word : starts_nonword close_s.
+Proof. reflexivity. Qed.
+
+Lemma space_not_word : forall c, is_space c = true -> is_word c = false.
+Proof.
+  intros c H. destruct (is_word c) eqn:E; [|reflexivity].
+  apply word_not_space in E. congruence.
+Qed.
+
+Lemma tail_drop_word : forall c t, is_word c = true -> tail_shaped (c :: t) -> tail_shaped t.
+Proof.
+  intros c t Hc [a [p [b [d [e [Heq [Ha [Hb [He Hd]]]]]]]]].
+  assert (Hns : is_space c = false) by (apply word_not_space; exact Hc).
+  destruct a as [|a0 a].
+  2:{ cbn in Heq. inversion Heq; subst. inversion Ha as [|? ? H0 _]; subst. unfold sp in H0. congruence. }
+  destruct p.
+  { cbn in Heq. inversion Heq; subst. cbn in Hc. discriminate. }
+  destruct b as [|b0 b].
+  2:{ cbn in Heq. inversion Heq; subst. inversion Hb as [|? ? H0 _]; subst. unfold sp in H0. congruence. }
+  cbn [pipe_s app] in Heq. destruct d as [|d0 d].
+  - exfalso. cbn [app] in Heq. destruct e as [|e0 e].
+    + cbn in Heq. inversion Heq; subst. cbn in Hc. discriminate.
+    + cbn in Heq. inversion Heq; subst. inversion He as [|? ? H0 _]; subst. unfold sp in H0. congruence.
+  - cbn [app] in Heq. inversion Heq; subst.
+    exists [], false, [], d, e. split; [reflexivity|].
+    split; [constructor|]. split; [constructor|]. split; [exact He|].
+    destruct d as [|d1 d]; [left; reflexivity|]. right.
+    destruct Hd as [Hd|[Hn Hd]]; [discriminate|]. split.
+    + apply no_nl_cons in Hn. apply Hn.
+    + apply (ends_nonspace_cons d0); [discriminate| exact Hd].
+Qed.
+
+Lemma tail_shaped_nonempty : ~ tail_shaped [].
+Proof.
+  intros [a [p [b [d [e [Heq _]]]]]].
+  apply (f_equal (@List.length ascii)) in Heq. repeat rewrite app_length in Heq. cbn in Heq. lia.
+Qed.
+
+Lemma take_word_tail : forall r, tail_shaped r -> tail_shaped (snd (take_word r)).
+Proof.
+  induction r as [|c r IH]; intros H; [exact H|].
+  cbn [take_word]. destruct (is_word c) eqn:E.
+  - destruct (take_word r) as [u r'] eqn:Et. cbn [snd] in *. apply IH.
+    apply (tail_drop_word c); assumption.
+  - exact H.
+Qed.
+
+Lemma take_word_app_gen : forall n r,
+  Forall wd n -> take_word (n ++ r) = (n ++ fst (take_word r), snd (take_word r)).
+Proof.
+  induction n as [|c n IH]; intros r Hn.
+  - cbn [app]. destruct (take_word r); reflexivity.
+  - inversion Hn as [|? ? Hc Hn']; subst. cbn [app take_word]. unfold wd in Hc. rewrite Hc.
+    rewrite (IH r Hn'). reflexivity.
+Qed.
+
+Lemma render_tail : forall s, shape_ok s ->
+  tail_shaped (w3 s ++ pipe_s (has_pipe s) ++ w4 s ++ df s ++ w5 s ++ close_s).
+Proof.
+  intros s [H1 [H2 [H3 [H4 [H5 [Hn [Hne Hd]]]]]]].
+  exists (w3 s), (has_pipe s), (w4 s), (df s), (w5 s). repeat split; assumption.
+Qed.
+
+Lemma env_not_space : starts_nonspace (env_s ++ []) /\ forall r, starts_nonspace (env_s ++ r).
+Proof. split; [reflexivity| intros; reflexivity]. Qed.
+
+(* every shaped string is accepted *)
+Lemma match_complete : forall s, shape_ok s -> match_env_l (render s) <> None.
+Proof.
+  intros s Hok. pose proof (render_tail s Hok) as HT.
+  destruct Hok as [H1 [H2 [H3 [H4 [H5 [Hn [Hne Hd]]]]]]].
+  rewrite match_env_l_unfold. unfold render. rewrite strip_prefix_app.
+  rewrite skip_ws_app; [|exact H1]. rewrite skip_ws_id; [|reflexivity].
+  rewrite strip_prefix_app. rewrite skip_ws_app; [|exact H2].
+  set (T := w3 s ++ pipe_s (has_pipe s) ++ w4 s ++ df s ++ w5 s ++ close_s) in *.
+  assert (Hsk : skip_ws (nm s ++ T) = nm s ++ T).
+  { apply skip_ws_id. destruct (nm s) as [|c n]; [congruence|]. cbn.
+    inversion Hn as [|? ? Hc _]; subst. apply word_not_space. exact Hc. }
+  rewrite Hsk. rewrite (take_word_app_gen (nm s) T Hn). cbn [fst snd].
+  destruct (nm s ++ fst (take_word T)) as [|c n] eqn:E.
+  - destruct (nm s); [congruence| discriminate].
+  - pose proof (tail_accept _ (take_word_tail T HT)) as Hacc.
+    destruct (tail_fn (snd (take_word T))); [discriminate| congruence].
+Qed.
+
+(* on the documented grammar the captures are exactly NAME and DEFAULT *)
+Lemma match_grammar : forall s, doc_ok s -> match_env_l (render s) = Some (nm s, df s).
+Proof.
+  intros s [[H1 [H2 [H3 [H4 [H5 [Hn [Hne Hd]]]]]]] Hdoc].
+  rewrite match_env_l_unfold. unfold render. rewrite strip_prefix_app.
+  rewrite skip_ws_app; [|exact H1]. rewrite skip_ws_id; [|reflexivity].
+  rewrite strip_prefix_app. rewrite skip_ws_app; [|exact H2].
+  set (T := w3 s ++ pipe_s (has_pipe s) ++ w4 s ++ df s ++ w5 s ++ close_s) in *.
+  assert (Hsk : skip_ws (nm s ++ T) = nm s ++ T).
+  { apply skip_ws_id. destruct (nm s) as [|c n]; [congruence|]. cbn.
+    inversion Hn as [|? ? Hc _]; subst. apply word_not_space. exact Hc. }
+  rewrite Hsk.
+  assert (HTnw : starts_nonword T).
+  { unfold T. destruct (w3 s) as [|c a].
+    - cbn [app]. destruct (has_pipe s) eqn:Ep; cbn [pipe_s app].
+      + reflexivity.
+      + destruct (df s) as [|d0 d] eqn:Edf.
+        * cbn [app]. destruct (w4 s) as [|c b]; cbn [app].
+          -- destruct (w5 s) as [|c e]; [reflexivity|]. cbn.
+             inversion H5 as [|? ? Hc _]; subst. apply space_not_word. exact Hc.
+          -- cbn. inversion H4 as [|? ? Hc _]; subst. apply space_not_word. exact Hc.
+        * exfalso. destruct Hdoc as [Hp _]; [discriminate|]. congruence.
+    - cbn. inversion H3 as [|? ? Hc _]; subst. apply space_not_word. exact Hc. }
+  rewrite (take_word_app (nm s) T Hn HTnw). cbn [fst snd].
+  destruct (nm s) as [|c n] eqn:En; [congruence|]. rewrite <- En.
+  assert (Htail : tail_fn T = Some (df s)).
+  { unfold tail_fn, T. rewrite skip_ws_app; [|exact H3].
+    assert (Hrest : skip_ws (drop_pipe (skip_ws (pipe_s (has_pipe s) ++ w4 s ++ df s ++ w5 s ++ close_s)))
+                    = df s ++ w5 s ++ close_s \/
+                    (df s = [] /\ skip_ws (drop_pipe (skip_ws (pipe_s (has_pipe s) ++ w4 s ++ df s ++ w5 s ++ close_s))) = close_s)).
+    { destruct (df s) as [|d0 d] eqn:Edf.
+      - right. split; [reflexivity|]. cbn [app]. destruct (has_pipe s); cbn [pipe_s app].
+        + cbn [skip_ws]. destruct pipe_facts as [Hps _]. rewrite Hps. cbn [drop_pipe].
+          rewrite Ascii.eqb_refl. rewrite skip_ws_app; [|exact H4].
+          rewrite skip_ws_app; [|exact H5]. reflexivity.
+        + rewrite skip_ws_app; [|exact H4]. rewrite skip_ws_app; [|exact H5]. reflexivity.
+      - left. destruct Hdoc as [Hp Hs]; [discriminate|]. rewrite Hp. cbn [pipe_s app].
+        cbn [skip_ws]. destruct pipe_facts as [Hps _]. rewrite Hps. cbn [drop_pipe].
+        rewrite Ascii.eqb_refl. rewrite skip_ws_app; [|exact H4].
+        apply skip_ws_id. exact Hs. }
+    destruct Hrest as [Hr|[Hdf Hr]]; rewrite Hr.
+    - rewrite app_assoc, strip_suffix_app. cbn zeta.
+      assert (Hrt : rtrim_ws (df s ++ w5 s) = df s).
+      { apply rtrim_app; [exact H5|]. destruct Hd as [Hd|[_ Hd]]; [left; exact Hd| right; exact Hd]. }
+      rewrite Hrt. destruct Hd as [Hd|[Hnl _]].
+      + rewrite Hd. reflexivity.
+      + unfold no_nl in Hnl. rewrite Hnl. reflexivity.
+    - rewrite Hdf. change close_s with ([] ++ close_s) at 2. rewrite strip_suffix_app. reflexivity. }
+  rewrite Htail. rewrite En. reflexivity.
+Qed.
+
+(* whatever is accepted is shaped, with the returned NAME and DEFAULT as components, NAME
+   maximal *)
+Lemma drop_pipe_inv : forall x, exists p, x = pipe_s p ++ drop_pipe x.
+Proof.
+  intros [|c x]; [exists false; reflexivity|]. cbn. destruct (Ascii.eqb c pipe_c) eqn:E.
+  - apply Ascii.eqb_eq in E. subst. exists true. reflexivity.
+  - exists false. reflexivity.
+Qed.
+
+Lemma match_sound : forall l n d,
+  match_env_l l = Some (n, d) ->
+  exists s, shape_ok s /\ l = render s /\ nm s = n /\ df s = d /\
+            starts_nonword (w3 s ++ pipe_s (has_pipe s) ++ w4 s ++ df s ++ w5 s ++ close_s).
+Proof.
+  intros l n d H. rewrite match_env_l_unfold in H.
+  destruct (strip_prefix open_s l) as [s1|] eqn:E1; [|discriminate].
+  apply strip_prefix_inv in E1.
+  destruct (skip_ws_inv s1) as [a1 [Ea1 [Ha1 _]]].
+  destruct (strip_prefix env_s (skip_ws s1)) as [s2|] eqn:E2; [|discriminate].
+  apply strip_prefix_inv in E2.
+  destruct (skip_ws_inv s2) as [a2 [Ea2 [Ha2 _]]].
+  destruct (take_word (skip_ws s2)) as [n' s3] eqn:E3. cbn [fst snd] in H.
+  apply take_word_inv in E3. destruct E3 as [En [Hn Hnw]].
+  destruct n' as [|c0 n0] eqn:En'; [discriminate|]. rewrite <- En' in *.
+  unfold tail_fn in H.
+  destruct (skip_ws_inv s3) as [a3 [Ea3 [Ha3 _]]].
+  destruct (drop_pipe_inv (skip_ws s3)) as [p Ep].
+  destruct (skip_ws_inv (drop_pipe (skip_ws s3))) as [a4 [Ea4 [Ha4 _]]].
+  destruct (strip_suffix close_s (skip_ws (drop_pipe (skip_ws s3)))) as [body|] eqn:E5; [|discriminate].
+  apply strip_suffix_inv in E5.
+  destruct (rtrim_inv body) as [a5 [Ea5 [Ha5 Hd]]].
+  cbn zeta in H. destruct (existsb is_nl (rtrim_ws body)) eqn:Enl; [discriminate|].
+  cbn [option_map] in H. inversion H; subst n d. clear H.
+  exists {| w1 := a1; w2 := a2; nm := n'; w3 := a3; has_pipe := p; w4 := a4;
+            df := rtrim_ws body; w5 := a5 |}.
+  assert (Hs3 : s3 = a3 ++ pipe_s p ++ a4 ++ rtrim_ws body ++ a5 ++ close_s).
+  { rewrite Ea3 at 1. f_equal. rewrite Ep at 1. f_equal. rewrite Ea4 at 1. f_equal.
+    rewrite E5. rewrite Ea5 at 1. rewrite <- app_assoc. reflexivity. }
+  split; [|split; [|split; [reflexivity| split; [reflexivity|]]]].
+  - unfold shape_ok. cbn. repeat split; try assumption.
+    + rewrite En'. discriminate.
+    + destruct Hd as [Hd|Hd]; [left; exact Hd| right; split; [exact Enl| exact Hd]].
+  - unfold render. cbn [w1 w2 nm w3 has_pipe w4 df w5]. rewrite E1. f_equal. rewrite Ea1 at 1. f_equal. rewrite E2. f_equal.
+    rewrite Ea2 at 1. f_equal. rewrite En. f_equal. exact Hs3.
+  - cbn [w1 w2 nm w3 has_pipe w4 df w5]. rewrite <- Hs3. exact Hnw.
+Qed.
+
+Lemma match_none_iff : forall l, match_env_l l <> None <-> shaped l.
+Proof.
+  intros l. split.
+  - intros H. destruct (match_env_l l) as [[n d]|] eqn:E; [|congruence].
+    apply match_sound in E. destruct E as [s [Hok [Hl _]]]. exists s. split; assumption.
+  - intros [s [Hok ->]]. apply match_complete. exact Hok.
+Qed.
